@@ -254,6 +254,21 @@ impl Ctl<'_> {
                 format!("{} stop notifications for {} stops of the cycle thread", self.stops.len(), parks),
             );
         }
+        // the thread is parked at the statement whose stop was announced last (a stop that is
+        // announced at one statement while the thread parks at another keeps the counts equal)
+        if self.parked() && self.stops.len() as u64 == parks {
+            let at = self.control.last_location();
+            if let (Some(s), Some(at)) = (self.stops.last(), at) {
+                if let Some(l) = s.location {
+                    if (l.start, l.end) != (at.start, at.end) && self.parked() {
+                        self.problem(
+                            "stop-park-location",
+                            format!("the last stop was announced at {:?} but the cycle thread is parked at {:?}", (l.start, l.end), (at.start, at.end)),
+                        );
+                    }
+                }
+            }
+        }
         if let Some(s) = self.stops.iter().find(|s| s.location.is_none()) {
             self.problem("stop-location", format!("stop notification without location: reason {:?}", s.reason));
         }
@@ -373,11 +388,19 @@ pub fn worker_exec(case: &Value) -> Value {
         .as_array()
         .map(|a| a.iter().map(|s| s.as_str().unwrap_or("").to_string()).collect())
         .unwrap_or_default();
-    let ref_seq: Vec<(u32, u32)> = case["ref_seq"]
+    let variant = case["variant"].as_u64().unwrap_or(0) as usize;
+    // hand-written replay cases may omit the reference statement sequence
+    let computed;
+    let ref_src = if case["ref_seq"].is_array() {
+        &case["ref_seq"]
+    } else {
+        computed = reference(variant).map(|r| r["seq"].clone()).unwrap_or(Value::Null);
+        &computed
+    };
+    let ref_seq: Vec<(u32, u32)> = ref_src
         .as_array()
         .map(|a| a.iter().map(|p| (p[0].as_u64().unwrap_or(0) as u32, p[1].as_u64().unwrap_or(0) as u32)).collect())
         .unwrap_or_default();
-    let variant = case["variant"].as_u64().unwrap_or(0) as usize;
     x3::run_controlled(case, HORIZON, move |sched| {
         let mut rt = build(variant);
         let bps: Vec<SourceLocation> = (0..BP_NEEDLES[variant].len()).map(|k| bp_location(&rt, variant, k)).collect();
